@@ -82,6 +82,7 @@ func childRaft(args []string) {
 		raftAs = args[3]
 	}
 	raftCorpusVoteBeforeAppend(out)
+	raftCorpusTwoCandidatesOneTerm(out)
 	for t := 0; t < trials; t++ {
 		raftTrial(out, rng.Fork(), t, thorough)
 	}
@@ -407,5 +408,70 @@ func raftCorpusVoteBeforeAppend(out *childOut) {
 		out.Violate("C05", "C05/restart-older-than-durable", fmt.Sprintf("a replica whose log store held only the hard state (term 5, vote 2) was reloaded with its group's member list and resumed at term %d, vote %d, last index %d: it re-bootstrapped", st.Term, st.Vote, li))
 	}
 	out.Nontrivial("vote-before-first-append")
+	c.teardown()
+}
+
+// corpus: two candidates in one term. The replica first hears a candidate whose log is behind its
+// own (it adopts the term and rejects), then a second candidate of the same term with an up-to-date
+// log (it grants). The hard state changes twice: term, then vote within the same term. The grant
+// must not leave before the vote is in the log store, and a restart must remember the vote.
+func raftCorpusTwoCandidatesOneTerm(out *childOut) {
+	out.Begin("corpus two candidates in one term")
+	defer out.End()
+	c := newRsCluster(uuid.NewV4(), false, NewRng(11))
+	c.viol = func(p, s, w string) { out.Violate(p, s, w) }
+	var grants []string
+	c.msgObs = func(from *rsNode, m *raftpb.Message) {
+		hs, _ := from.w.HardState()
+		last, _ := from.w.LastIndex()
+		if m.Type == raftpb.MsgVoteResp {
+			grants = append(grants, fmt.Sprintf("to %d reject=%v at store term=%d vote=%d", m.To, m.Reject, hs.Term, hs.Vote))
+		}
+		rej := 0
+		if m.Reject {
+			rej = 1
+		}
+		out.Op("msg %s %d %d %d %d %d %d %d %d", m.Type.String(), m.Term, m.Index, rej, m.To, from.id, hs.Term, hs.Vote, last)
+		if attested(m, hs, last, from.id) {
+			out.Res("attested")
+		} else {
+			out.Res("premature")
+			out.Violate("C05", "C05/message-before-durable/"+m.Type.String(), fmt.Sprintf("node %d sent %s(term %d, reject %v) to %d while its log store held term %d, vote %d", from.id, m.Type, m.Term, m.Reject, m.To, hs.Term, hs.Vote))
+		}
+	}
+	n, err := c.start(1, []uint64{1, 2, 3}, "node-1")
+	if err != nil {
+		out.Violate("C05", "C05/start-fails", err.Error())
+		return
+	}
+	// the bootstrap entries (three membership changes) reach the store
+	waitFor(3*time.Second, func() bool { li, _ := n.w.LastIndex(); return li >= 3 })
+	send := func(m raftpb.Message) {
+		data, _ := m.Marshal()
+		n.tr.Receive(context.Background(), &pb.RaftMessage{GroupId: c.gid.Bytes(), Message: data})
+	}
+	send(raftpb.Message{Type: raftpb.MsgVote, From: 2, To: 1, Term: 7, Index: 0, LogTerm: 0}) // behind: rejected, term adopted
+	waitFor(3*time.Second, func() bool { hs, _ := n.w.HardState(); return hs.Term == 7 })
+	li, _ := n.w.LastIndex()
+	lt, _ := n.w.Term(li)
+	send(raftpb.Message{Type: raftpb.MsgVote, From: 3, To: 1, Term: 7, Index: li, LogTerm: lt}) // up to date: granted
+	ok := waitFor(3*time.Second, func() bool { return len(grants) >= 2 })
+	time.Sleep(50 * time.Millisecond)
+	out.Local("vote responses: %v", grants)
+	hs, _ := n.w.HardState()
+	if ok && (hs.Term != 7 || hs.Vote != 3) {
+		out.Violate("C05", "C05/vote-not-durable", fmt.Sprintf("the replica granted its vote to 3 in term 7; its log store holds term %d, vote %d", hs.Term, hs.Vote))
+	}
+	n.ctl.kill()
+	n.stopIncarnation()
+	n2, err := c.start(1, []uint64{1, 2, 3}, "node-1")
+	if err == nil {
+		time.Sleep(50 * time.Millisecond)
+		st := n2.g.VerifStatus()
+		if ok && (st.Term < 7 || (st.Term == 7 && st.Vote != 3)) {
+			out.Violate("C05", "C05/restart-forgets-vote", fmt.Sprintf("after granting its vote to 3 in term 7 and restarting, the replica is at term %d with vote %d: it can vote a second time in the same term", st.Term, st.Vote))
+		}
+	}
+	out.Nontrivial("two-candidates-one-term")
 	c.teardown()
 }
